@@ -299,6 +299,17 @@ async def run_history(loop, case, out, stats, trace):
                     key, payload, params = await asyncio.wait_for(c["obj"].consume(), timeout)
                 except asyncio.TimeoutError:
                     trace.append(("consume-timeout", c["obj"]._rv_label))
+                    if must and kind == "redis":
+                        # a must-message that sat in the 'processing' set for the whole wait without being in this
+                        # consumer's local queue is in nobody's hands: the stuck_held mechanism, seen late
+                        snap_ = rig.snapshot()
+                        loc = local_ids(c["obj"])
+                        stuck = [m for m in must if tuple(snap_.get(m.id, ())) == ("held",) and m.id not in loc]
+                        for m in stuck:
+                            m.place = "stuck"
+                        if stuck:
+                            out.append(V("stuck_held", kind, "no-live-holder", f"{[m.id for m in stuck]} marked in-flight for {timeout}s, not in the local queue of the only consumer that could hold them"))
+                        must = [m for m in must if m not in stuck]
                     if must:
                         stats["consume_must_timeouts"] += 1
                         out.append(V("lost", kind, ctx + "-timeout", f"{c['cat']} consumer on {c['queue']} topics={c['topics']} got nothing in {timeout}s although deliverable: {[m.id for m in must][:5]}; snapshot={ {k: v for k, v in rig.snapshot().items() if k in [m.id for m in must][:5]} }"))
